@@ -180,7 +180,8 @@ def summarize_trace(path, ev, nontrivial_rule):
 # random families: (profile, quick count, thorough count)
 
 RESOLVER = {
-    "C01": {"inv": ["C01"], "reps": (3, 6), "family": "C01",
+    # (the C03 family inside the C01 family stays at its quick size in both tiers: its thorough size is explored by C03's own check)
+    "C01": {"inv": ["C01"], "reps": (3, 6), "family": "C01", "family_size": "1",
             "random": [("general", 2500, 25000), ("wild", 1500, 15000), ("single", 800, 8000), ("multi", 800, 8000),
                        ("redef", 400, 5000), ("convert", 400, 5000)]},
     "C02": {"inv": ["C02"], "reps": (3, 6), "family": "C02", "life": True,
@@ -263,7 +264,7 @@ def real_observations(trace_path):
     return real
 
 
-def model_stage(w, prop, module, cfgname, invariants, constants, ev, timeout=1500):
+def model_stage(w, prop, module, cfgname, invariants, constants, ev, timeout=2700):
     """Exhaustive TLC run of the Resolver over the scenario set: design-level invariants over all
     tie-breaks + emission of the outcome set of every scenario."""
     write_cfg(w, cfgname, "Spec", invariants + ["EmitObs", "EmitScn"], constants=constants, post=None, alias=None)
@@ -479,7 +480,7 @@ def run_resolver(prop, tier, seed, keep=False):
         vlib.write_json(w.path("scn_model.json"), mscn)
         fam = spec.get("family")
         consts = {"ScnFile": '"scn_model.json"', "Bugs": "{}", "Scenarios": "<- AllScenarios",
-                  "Family": '"%s"' % (fam or "none"), "Size": "1" if ti == 0 else "2"}
+                  "Family": '"%s"' % (fam or "none"), "Size": spec.get("family_size", "1" if ti == 0 else "2")}
         mres, model, famscn = model_stage(w, prop, "MC_Family.tla", "MC_%s.cfg" % prop,
                                           ["M_" + i for i in spec.get("minv", spec["inv"])], consts, ev)
         allscn += famscn
